@@ -401,7 +401,8 @@ class Defn:
                 ch.criteria = [c06.cmp_sx(selector[0], rng.choice([">=", "geq", "&gt;="]), str(k), True),
                                c06.cmp_sx(selector[0], rng.choice(["<=", "leq", "&lt;="]), str(k), True)]
             elif style < 0.9:
-                ch.criteria = [["bexpr", ["or", [c06.cond_sx(selector[0], rng.choice(["==", "eq"]), None, str(k), True, False)],
+                ch.criteria = [["bexpr", ["or", [c06.cond_sx(selector[0], rng.choice(["==", "eq"]), None,
+                                                             rng.choice([str(k), str(k), f" {k}", f"{k} "]), True, False)],
                                           [["and", [c06.cond_sx(selector[0], rng.choice([">=", "geq"]), None, str(k), True, False),
                                                     c06.cond_sx(selector[0], rng.choice(["<", "lt"]), None, str(k + 1), True, False)], []]]]]]
             else:
@@ -412,7 +413,9 @@ class Defn:
                 other = rng.choice(["VERSION", "TYPE", "SEQ_FLGS", "SRC_SEQ_CTR"])
                 pp = lambda: c06.cond_sx(selector[0], rng.choice(["==", "!=", "<", ">="]), other, None,  # noqa: E731
                                          rng.random() < 0.5, rng.random() < 0.5)
-                lit = c06.cond_sx(selector[0], "==", None, str(k), rng.random() < 0.5, False)
+                # (the literal of a Condition is character data: blanks around it belong to it)
+                lit = c06.cond_sx(selector[0], "==", None, rng.choice([str(k), str(k), f" {k} ", f"{k}  "]),
+                                  rng.random() < 0.5, False)
                 ch.criteria = [rng.choice([
                     ["bexpr", pp()],
                     ["bexpr", ["and", [lit, pp()], [["or", [pp(), lit], []]]]],
